@@ -72,10 +72,11 @@ Section Spec.
     | TStr | TEnum _ => match s with SStr | SId _ => true | _ => false end
     | TId c => match s with SId c' => (c =? c')%N | _ => false end
     | TBool => match s with SBool => true | _ => false end
-    | TInt lo hi => match s with SInt lo' hi' => (lo <=? lo')%Z && (hi' <=? hi)%Z | _ => false end
+    | TInt lo hi | TIntLax lo hi => match s with SInt lo' hi' => (lo <=? lo')%Z && (hi' <=? hi)%Z | _ => false end
     | TObjAny => match s with SObjAny | SObj _ | SMap _ _ => true | _ => false end
     | TVec t' => match s with SArr s' => compat s' t' | _ => false end
     | TMap c t' => match s with SMap c' s' => ((c =? c')%N || (c =? 0)%N) && compat s' t' | _ => false end
+    | TMapEnum _ t' => match s with SMap _ s' => compat s' t' | _ => false end
     | TStruct fs =>
         match s with
         | SObj sfs =>
@@ -104,7 +105,7 @@ Section Spec.
     match t, j with
     | TOpt t', _ => extra_free s t' j
     | TVec t', JArr l => match s with SArr s' => forallb (extra_free s' t') l | _ => true end
-    | TMap _ t', JObj m =>
+    | TMap _ t', JObj m | TMapEnum _ t', JObj m =>
         match s with SMap _ s' => forallb (fun kv => extra_free s' t' (snd kv)) m | _ => true end
     | TStruct fs, JObj m =>
         match s with
